@@ -23,7 +23,7 @@ claim('C19', 'other',
       "standards x both header variants on the corner combinations; thorough: 2 compilers x 4 standards x 2 variants x "
       "all combinations); the shipped single header is byte-identical to a fresh tools/join.py run and to an independent "
       "re-implementation of the merge; per-feature differential comparison of the extracted facts shows that switching a "
-      "feature on only adds code that touches feature-owned state; the logging differential of C16 (bodies identical after erasing exactly the log statements) is an obligation here too; the plan feature's code stays inside its own bit arrays for every id the library feeds into it (C19.d = C18.h).",
+      "feature on only adds code that touches feature-owned state; the logging differential of C16 (bodies identical after erasing exactly the log statements) is an obligation here too; the plan feature's code stays inside its own bit arrays for every id the library feeds into it (C19.d = C18.h); the configuration setters mean the same with and without the plan feature, in every order (C19.e).",
       "Trusted: clang 14 / gcc 12 front ends; witness w_core as the set of API uses that must compile. 'Observable "
       "behaviour unchanged' is decided as 'the feature-neutral functions have identical event summaries', not by running.",
       "feature-matrix type checking + byte-level translation validation of the amalgamation + differential AST facts",
@@ -46,7 +46,7 @@ claim('C14', 'proof',
       "template walker over the CS_ tree reached from R_::Apex shows every leaf k wraps S_k with STATE_ID == PRONG_INDEX "
       "== k and every split node partitions its range at R_PRONG; a structural rule over every instantiated CS_ "
       "dispatcher (branch on prong < R_PRONG, true->left, false->right, same kind, arguments unchanged) closes the "
-      "induction that wideX(control,k) reaches exactly leaf k; access<T>() is a derived-to-base conversion of the apex; library code never copy- or move-constructs a state object, so callbacks run on the object access<T>() names (C14.e); no entry point dispatches enter/exit/reenter with the invalid prong (C14.c, observer shared with C01.a).",
+      "induction that wideX(control,k) reaches exactly leaf k; access<T>() is a derived-to-base conversion of the apex; library code never copy- or move-constructs a state object, so callbacks run on the object access<T>() names (C14.e); no entry point dispatches enter/exit/reenter with the invalid prong (C14.c, observer shared with C01.a); a moved-from / copied-from machine keeps its registry, so its destructor exits the state it entered (C14.f = C01.g).",
       "Trusted: clang 14 / gcc 12 template instantiation and constant evaluation; the walker templates in gen/nfamily.py.",
       "static_assert obligations discharged by two compiler front ends + AST shape rule on dispatchers + flow rule for initial/requested prong",
       "DESIGN.md section 4 C14")
@@ -64,7 +64,7 @@ claim('C17', 'other',
       "Decides the statement through its only possible causes in code of this shape: every scalar member of every FFSM2 "
       "record is definitely initialised by every constructor; hand-written copy/move constructors copy every base and "
       "member from the same base/member; copy/move construction of an automatically activated machine cannot reach "
-      "initialEnter; no mutable static state and no non-deterministic external call. No value depends on an address (no pointer<->integer casts, pointer ordering or identity tests other than null, C17.e); user bases of states are covered by the copy rule; hand-written copies of the bit array are decided bit by bit for every capacity (C20.e refinement). Equality of two executions as such "
+      "initialEnter; no mutable static state and no non-deterministic external call. No value depends on an address (no pointer<->integer casts, pointer ordering or identity tests other than null, C17.e); user bases of states are covered by the copy rule; hand-written copies of the bit array are decided bit by bit for every capacity (C20.e refinement); copy/move operations leave their source untouched (C17.f). Equality of two executions as such "
       "is not decided.",
       "Trusted: clang's constructor-initialiser lists incl. implicit ones; witnesses w_core/w_pay instantiate every class.",
       "definite-initialisation and copy-coverage rules over record/constructor facts + call-graph reachability",
@@ -75,7 +75,7 @@ claim('C01', 'other',
       "automaton) of every entry point that can reach a dispatcher (update, react, immediate*, replay*, load, enter/exit, "
       "constructors, destructor; both activation modes; all witness machines) shows enter/exit/reenter pairing, root before/"
       "after, dispatch only to the active state and the activity invariant at return; who-may-call and who-may-write rules "
-      "close the induction; no control flavour can write the registry. The load rule's precondition (the index read was written by save()) is discharged by the save/load field-table and clear-before-write obligations (C01.f). Deactivation resets (final exit, destructor) are writers of the activity state and are part of the who-may-write table (C01.b).",
+      "close the induction; no control flavour can write the registry. The load rule's precondition (the index read was written by save()) is discharged by the save/load field-table and clear-before-write obligations (C01.f). Deactivation resets (final exit, destructor) are writers of the activity state and are part of the who-may-write table (C01.b). Copy/move construction and assignment write only the object they initialise: the machine copied or moved from keeps its registry (C01.g).",
       "Assumes A1-A3 (callbacks act only through their control, do not re-enter the API, preconditions respected). Machine "
       "size is abstracted by the dispatch primitive, whose correctness for every size is C14.",
       "finite-domain abstract interpretation (typestate) + call-graph / effect-set rules",
@@ -86,7 +86,7 @@ claim('C02', 'other',
       "request only in the guarded loops. Order rules: processing last. Must-equality dataflow through processRequest / "
       "initialEnter: the state entered/re-entered is the destination of the transition shown to enter() as current, which is a "
       "whole copy of the pending transition of a round whose guards did not cancel; nothing survives => no callback, same active "
-      "state; requested is invalid at return. Comparison-domain evaluation of the de-duplication test. Only the four request writers and request processing write the request slot (C02.g); each writer replaces the whole request through the assignment operator of the request's own type. Processing continues up to the configured substitution limit and stops no earlier (C02.h, shares C04.a).",
+      "state; requested is invalid at return. Comparison-domain evaluation of the de-duplication test. Only the four request writers and request processing write the request slot (C02.g); each writer replaces the whole request through the assignment operator of the request's own type. Processing continues up to the configured substitution limit and stops no earlier (C02.h, shares C04.a); after the substitution loop nothing on the way to the return writes the request slot, so a request left over by the limit is carried to the next processing point (C02.i).",
       "Assumes A1-A3; guards are unknown booleans, callbacks havoc exactly the computed effect set of their control flavour.",
       "effect sets + CFG order rules + must-equality abstract interpretation + comparison-domain evaluation of the branch conditions that control a guard round (located by control dependence)",
       "DESIGN.md section 4 C02")
@@ -95,7 +95,7 @@ claim('C03', 'other',
       "Guard rounds interpreted with both outcomes at every guard: exit guard first on the active state, entry guard on the "
       "requested state, nothing consulted after a cancellation, fresh guard control per round bound to (current, pending), "
       "acceptance only on the not-cancelled edge; guard evaluation cannot reach enter/exit/reenter nor write the registry; "
-      "replay/load never reach guards; the wrappers' return expression is decided on the enumeration (flag at entry) x (which user callback cancels), C03.e; cancelPendingTransition() sets the flag for every calling state, the root head (invalid id) included (comparison-domain evaluation).",
+      "replay/load never reach guards; the wrappers' return expression is decided on the enumeration (flag at entry) x (which user callback cancels), C03.e; cancelPendingTransition() sets the flag for every calling state, the root head (invalid id) included (comparison-domain evaluation); the pending transition guards are shown is a copy of a request that was written whole (C03.g = C02.a).",
       "Assumes A1-A3.",
       "abstract interpretation with observer automaton + call-graph reachability + statement-wise evaluation of the wrappers on the (flag before, flag after) truth table",
       "DESIGN.md section 4 C03")
@@ -104,7 +104,7 @@ claim('C04', 'other',
       "Counted-loop rule on both substitution loops (bound == the limit of the configuration type and of the witness declaration, for limits 1,2,3,4,255; single increment; one "
       "guard round per iteration; 8-bit counter cannot wrap), acyclic call graph, every other loop classified, end state at "
       "the limit covered by the C02.d/C01.a interpretation (loop exit edge with a request still outstanding), leftover request "
-      "only consumable through the guarded loops. The configured substitution limit survives every order of the configuration setters (C04.e, type-level). A veto always takes, whoever casts it (C04.f).",
+      "only consumable through the guarded loops. The configured substitution limit survives every order of the configuration setters (C04.e, type-level). A veto always takes, whoever casts it (C04.f). The leftover request is not written between the loop and the return (C04.d path rule).",
       "Termination of the plan-list walks rests on list integrity (C10 residue).",
       "spelling-independent bounded-loop analysis (local counter, +1 on every iterating path, constant bound) + call-graph acyclicity + abstract interpretation",
       "DESIGN.md section 4 C04")
@@ -113,7 +113,7 @@ claim('C05', 'other',
       "Order rules (dominance / post-dominance / exactly-once) on R_::update/react/query, every C_::deep<phase>, every CS_ "
       "dispatcher and S_ wrapper: phases once each in the prescribed order, head/sub-state order per phase, dispatch on "
       "registry.active read at phase start, processRequest last; effect rules: phases cannot reach guards/enter/exit nor write "
-      "the registry, event handed on by reference at every level, query() const and effect-free.",
+      "the registry, event handed on by reference at every level, query() const and effect-free; for states built from injected bases each phase callback and query() of every injection and of the state itself runs exactly once (C05.e, witness w_inj).",
       "Assumes A1-A3. All machine sizes through C14.",
       "CFG order rules over apex dispatches flattened through helper call chains + effect sets over resolved callees",
       "DESIGN.md section 4 C05")
@@ -131,7 +131,7 @@ claim('C11', 'other',
       "Writers of previousTransition are the expected ones; at return of every processing entry point the history equals the "
       "accepted transition field by field and names the active state (must-equality dataflow); replayTransition/replayEnter "
       "enter exactly the replayed destination without guards and record it; replayTransition(invalid) returns false with no "
-      "dispatch; copy/move constructors copy the history; a processing step in which nothing was accepted leaves an empty history (C11.b idle step).",
+      "dispatch; copy/move constructors copy the history; a processing step in which nothing was accepted leaves an empty history (C11.b idle step); every request writer replaces the whole request, so the history inherits nothing from an earlier request (C11.f = C02.a).",
       "Assumes A1-A3.",
       "effect sets + must-equality abstract interpretation + call-graph reachability",
       "DESIGN.md section 4 C11")
@@ -154,7 +154,7 @@ claim('C08', 'other',
       "is active, firing only under the success test of the same iterator and with the task origin as caller, remove after fire, "
       "exactly-once success consumption, deferred consumption after the scan; who-may-call and position of the plan step; the leaf "
       "status mapping on its truth table, maxima for the status operators; exhaustive comparison-domain evaluation of the scan's "
-      "activity predicate (origin 0 included); sibling agreement of the two specialisations (also as call sequences, C08.f); on effect summaries succeed(id)/fail(id) set exactly the bit of id and the cycle result, the parameterless forms report for the calling state (C08.h); clearTaskStatus clears both bits of its id unconditionally (C08.e); the plan-exists gate is set by append and cleared by the full reset only (C08.g) and the per-cycle status is reset after the plan step on every path (C08.i); order across plan edits shares the link/unlink/iterator summaries of C10 (C08.j).",
+      "activity predicate (origin 0 included); sibling agreement of the two specialisations (also as call sequences, C08.f); on effect summaries succeed(id)/fail(id) set exactly the bit of id and the cycle result, the parameterless forms report for the calling state (C08.h); clearTaskStatus clears both bits of its id unconditionally (C08.e); the plan-exists gate is set by append and cleared by the full reset only (C08.g) and the per-cycle status is reset after the plan step on every path (C08.i); order across plan edits shares the link/unlink/iterator summaries of C10 (C08.j); a full reset forgets the task links too (C08.k = C09.f).",
       "The order in which tasks are visited relies on the plan list (C10 residue). Assumes A1-A3.",
       "CFG dominance / control-dependence rules + comparison-domain evaluation + sibling agreement",
       "DESIGN.md section 4 C08")
@@ -175,7 +175,7 @@ claim('C10', 'other',
       "nothing written, INVALID returned; recycle / grow by one inside the array / last slot), remove a push; PlanT::linkTask "
       "appends at the tail, PlanT::remove unlinks exactly the given node in all four neighbour situations and releases its slot; "
       "the three plan iterators cache the successor before the current task can be removed, advance to it and agree; capacity "
-      "tests in append; the configured task capacity survives every order of the configuration setters (C10.h, type-level). Integrity of the intrusive lists over every history and capacity (the inductive invariant the per-operation "
+      "tests in append; the configured task capacity survives every order of the configuration setters (C10.h, type-level) and is the capacity of the pool; side arrays are at least as long (C10.i). Integrity of the intrusive lists over every history and capacity (the inductive invariant the per-operation "
       "facts would have to be composed with) is NOT decided.",
       "Residue: list shape invariant over histories (relational shape analysis or state enumeration = another family). The "
       "summaries assume a node is never its own neighbour (that invariant).",
@@ -198,7 +198,7 @@ claim('C13', 'other',
       "exactly N, contiguous fields); writer/reader agreement on byte index, chunk start, chunk width, LSB-first, OR into a cleared "
       "buffer; type-level: the width derived for every state count 1..255 suffices. C13.d: bit-provenance abstract interpretation "
       "of write<N>/read<N> for every width 1..32 and every start cursor of the 255-bit stream decides the value-level clauses for "
-      "all values (own field placed LSB-first at [cursor, cursor+N), nothing else altered, bits past the cursor zero, read returns "
+      "all values; writer and reader hold the caller's buffer by reference (C13.f); (own field placed LSB-first at [cursor, cursor+N), nothing else altered, bits past the cursor zero, read returns "
       "exactly the field, cursor += N), which composes to the round trip over every field sequence.",
       "The kernels are analysed at capacity 255; they mention the capacity in an assertion only. Where C13.d decides, the shape rules "
       "C13.b/c are diagnostics and step aside for loops spelled differently.",
@@ -219,7 +219,7 @@ claim('C18', 'other',
       "Allocation-freedom from the AST (placement new only, no delete, allowed externals) cross-checked on the undefined symbols "
       "of compiled witness objects; payload/member alignment from the record layout; definite initialisation; constant or locally "
       "bounded shift amounts; positive extents; reinterpret_cast only on payload storage; interval reasoning on locally guarded "
-      "subscripts. Absence of out-of-bounds accesses for all histories is NOT decided (unguarded subscripts are counted as 'no verdict'). The byte storage behind every bit container has ceil(N/8) bytes for every N <= 255 (exhaustive type-level unit, C18.e). The task pool's slot indices stay inside its array by the per-operation vacant-list summaries (C18.f = C10.a/c) and every bit-container operation addresses only storage the container owns, for every capacity 1..255 and index (C18.g = the C20.e refinement); the state ids the library itself feeds into single-index bit operations, the root head's invalid id included, are below the capacity (C18.h).",
+      "subscripts. Absence of out-of-bounds accesses for all histories is NOT decided (unguarded subscripts are counted as 'no verdict'). The byte storage behind every bit container has ceil(N/8) bytes for every N <= 255 (exhaustive type-level unit, C18.e). The task pool's slot indices stay inside its array by the per-operation vacant-list summaries (C18.f = C10.a/c) and every bit-container operation addresses only storage the container owns, for every capacity 1..255 and index (C18.g = the C20.e refinement); the state ids the library itself feeds into single-index bit operations, the root head's invalid id included, are below the capacity (C18.h); every per-task side array of the plan data has an element for every index the task pool can hand out (C18.i, type-level on witness capacities 1, 2, 8, 254).",
       "Residue: value ranges of indices kept by data-structure invariants.",
       "AST effect rules + object symbol table + record layout + local interval analysis",
       "DESIGN.md section 4 C18")
